@@ -43,7 +43,7 @@ theorem groupNE_updGang_keep {gs : List Gang} {id : GangId} {f : Gang → Gang}
     (h : AllGang GroupNE gs) (hf : ∀ g, (f g).group = g.group) : AllGang GroupNE (updGang gs id f) :=
   allGang_updGang h (fun g hg => by unfold GroupNE; rw [hf g]; exact h g hg)
 
-theorem applyCfg_groupNE (g : Gang) (c : Cfg) (b : Bool) : GroupNE (applyCfg g c b) := by
+theorem applyCfg_groupNE (d : Nat) (g : Gang) (c : Cfg) (b : Bool) : GroupNE (applyCfg d g c b) := by
   unfold GroupNE applyCfg
   exact sortNat_ne_nil (groupOrSelf_ne_nil _ _)
 
@@ -74,7 +74,7 @@ theorem groupNE_pgApply (s : State) (id : GangId) (c : Cfg) (h : AllGang GroupNE
     AllGang GroupNE (pgApply s id c).gangs := by
   unfold pgApply
   apply groupNE_attachInfo
-  exact allGang_updGang h (fun g _ => applyCfg_groupNE g c false)
+  exact allGang_updGang h (fun g _ => applyCfg_groupNE s.dflt g c false)
 
 theorem groupNE_removeGang (s : State) (g : Gang) (h : AllGang GroupNE s.gangs) :
     AllGang GroupNE (removeGang s g).gangs := by
@@ -90,7 +90,7 @@ theorem groupNE_podEvt (s : State) (p : Pod) (id : GangId) (n : Bool) (anno : Op
         | none => ensureGang s id
         | some (minOK, c) =>
           attachInfo { ensureGang s id with gangs := updGang (ensureGang s id).gangs id (fun g =>
-            if g.init = false ∧ minOK = true then applyCfg g c true else g) } id).gangs := by
+            if g.init = false ∧ minOK = true then applyCfg s.dflt g c true else g) } id).gangs := by
     cases anno with
     | none => exact h0
     | some a =>
@@ -99,7 +99,7 @@ theorem groupNE_podEvt (s : State) (p : Pod) (id : GangId) (n : Bool) (anno : Op
       apply allGang_updGang h0
       intro g hg
       split
-      · exact applyCfg_groupNE g c true
+      · exact applyCfg_groupNE s.dflt g c true
       · exact h0 g hg
   unfold podEvt
   simp only
